@@ -493,3 +493,368 @@ def trim_summary(I, args, kwargs, node):
             ctx.universals.append(lambda key, s0=s0: _z3.Implies(_z3.And(key - s0 >= 0, key - s0 < rows), _z3.Not(has_obs(key - s0))))
         I.call(I.getattr(self, "reset", node), [], {}, node)
     return self
+
+
+# ------------------------------------------------------------------------------ overlay / underlay / hstack
+def in_span(K, start, data, t):
+    if start is None:
+        return False
+    return K.And(t >= start, t < start + K.shape(data)[0])
+
+
+@contract("C10", targets=[P + "Series.overlay", P + "Series.overlay_by_span", P + "Series.underlay", P + "Series.underlay_by_span",
+                          P + "_broadcast_variants_if_needed", P + "Series._shallow_copy_data"],
+          instances=[(c, n, w) for c in CLS[:1] for n in NV for w in ("overlay", "underlay")] + [(CLS[1], 1, "overlay")], opts={"max_paths": 6000})
+def overlay_underlay(K, cls, nv, which):
+    x, xs, xd = mk_series(K, "x", cls, nv)
+    y, ys, yd = mk_series(K, "y", cls, nv)
+    oldx, oldy = K.snapshot(xd), K.snapshot(yd)
+    K.method(x, which, y)
+    ns, nd = state(K, x)
+    t, c = generic_cell(K, cls, nv)
+    K.instantiate(t)
+    a, b = V(K, xs, oldx, t, c), V(K, ys, oldy, t, c)
+    if which == "overlay":
+        want = K.cell_ite(in_span(K, ys, oldy, t), lambda: b, lambda: a)
+        K.ensure("overlay: the other series wins on its whole span, the receiver elsewhere", K.cell_eq(V(K, ns, nd, t, c), want))
+    else:
+        want = K.cell_ite(in_span(K, xs, oldx, t), lambda: a, lambda: b)
+        K.ensure("underlay: the receiver wins on its whole span, the other series elsewhere", K.cell_eq(V(K, ns, nd, t, c), want))
+    K.ensure("RI after lay", RI(K, x, nv, cls))
+    nys, nyd = state(K, y)
+    K.ensure("the other series is untouched", K.cell_eq(V(K, nys, nyd, t, c), b))
+    K.ensure("no memory shared with the other series", not K.same_buffer(nd, nyd))
+
+
+@contract("C10", targets=[P + "Series.hstack", P + "hstack", P + "Series.__or__"], instances=[(c, n1, n2) for c in CLS[:1] for n1 in NV for n2 in NV],
+          opts={"max_paths": 6000})
+def hstack_aligns_on_periods(K, cls, n1, n2):
+    x, xs, xd = mk_series(K, "x", cls, n1)
+    y, ys, yd = mk_series(K, "y", cls, n2)
+    r = K.method(x, "hstack", y)
+    rs, rd = state(K, r)
+    K.ensure("variants concatenated", K.shape(rd)[1] == n1 + n2)
+    lo, hi = ser(K, cls)
+    t = K.int("t", lo - 30, hi + 60)
+    K.instantiate(t)
+    for c in range(n1 + n2):
+        want = V(K, xs, xd, t, c) if c < n1 else V(K, ys, yd, t, c - n1)
+        K.ensure(f"column {c} aligned on periods", K.cell_eq(V(K, rs, rd, t, c), want))
+    K.ensure("RI", RI(K, r, n1 + n2, cls))
+    K.ensure("fresh memory", (not K.same_buffer(rd, K.attr(x, "data"))) and (not K.same_buffer(rd, K.attr(y, "data"))))
+
+
+# ------------------------------------------------------------------------------ functional forms never touch their input
+import irispie.series._elementwise as EW
+import irispie.series._temporal as TT
+
+
+@contract("C10", targets=["irispie.series._functionalize:FUNC_STRING", P + "shift", P + "Series.shift", P + "redate", P + "Series.redate"],
+          instances=[(c, n) for c in CLS for n in NV])
+def functional_shift_leaves_input(K, cls, nv):
+    x, xs, xd = mk_series(K, "x", cls, nv)
+    by = K.int("by", -40, 40)
+    r = K.call(M.shift, x, by)
+    rs, rd = state(K, r)
+    t, c = generic_cell(K, cls, nv)
+    K.ensure("functional shift returns the shifted series", K.cell_eq(V(K, rs, rd, t, c), V(K, xs, xd, t + by, c)))
+    nxs, nxd = state(K, x)
+    K.ensure("input untouched", K.And(nxs == xs, K.cell_eq(V(K, nxs, nxd, t, c), V(K, xs, xd, t, c))))
+    K.ensure("result is a different object with its own memory and start", (r is not x) and (not K.same_buffer(rd, nxd)) and (K.attr(r, "start") is not K.attr(x, "start")))
+    r2 = K.index(x, by)
+    r2s, r2d = state(K, r2)
+    K.ensure("x[k] is the functional shift", K.cell_eq(V(K, r2s, r2d, t, c), V(K, xs, xd, t + by, c)))
+    K.ensure("x[k] does not alias x", not K.same_buffer(r2d, nxd))
+
+
+@contract("C10", targets=["irispie.series._functionalize:FUNC_STRING", P + "overlay", P + "underlay"], instances=[(CLS[0], 1, w) for w in ("overlay", "underlay")],
+          opts={"max_paths": 6000})
+def functional_lay_leaves_inputs(K, cls, nv, which):
+    x, xs, xd = mk_series(K, "x", cls, nv)
+    y, ys, yd = mk_series(K, "y", cls, nv)
+    r = K.call(getattr(M, which), x, y)
+    rs, rd = state(K, r)
+    t, c = generic_cell(K, cls, nv)
+    K.instantiate(t)
+    a, b = V(K, xs, xd, t, c), V(K, ys, yd, t, c)
+    want = K.cell_ite(in_span(K, ys, yd, t), lambda: b, lambda: a) if which == "overlay" else K.cell_ite(in_span(K, xs, xd, t), lambda: a, lambda: b)
+    K.ensure(f"functional {which} result", K.cell_eq(V(K, rs, rd, t, c), want))
+    nxs, nxd = state(K, x)
+    nys, nyd = state(K, y)
+    K.ensure("both inputs untouched", K.And(K.cell_eq(V(K, nxs, nxd, t, c), a), K.cell_eq(V(K, nys, nyd, t, c), b)))
+    K.ensure("no aliasing", (not K.same_buffer(rd, nxd)) and (not K.same_buffer(rd, nyd)))
+
+
+ELEM = {"exp": lambda K, v: K.exp(v), "abs": lambda K, v: K.ite(v >= 0, v, -v), "log": lambda K, v: K.log(v)}
+
+
+@contract("C10", targets=["irispie.series._elementwise:Inlay.exp", "irispie.series._elementwise:Inlay.abs", "irispie.series._elementwise:Inlay.log",
+                          "irispie.series._elementwise:exp", "irispie.series._elementwise:abs", "irispie.series._elementwise:log"],
+          instances=[(CLS[0], n, f) for n in NV for f in ELEM])
+def elementwise_function(K, cls, nv, fname):
+    x, xs, xd = mk_series(K, "x", cls, nv)
+    r = K.call(getattr(EW, fname), x)
+    rs, rd = state(K, r)
+    t, c = generic_cell(K, cls, nv)
+    a = V(K, xs, xd, t, c)
+    if fname == "log":
+        K.assume(K.Or(K.cell_is_nan(a), K.cell_val(a) > 0))
+    want = K.cell_ite(K.cell_is_nan(a), lambda: K.nan_cell(), lambda: K.real_cell(ELEM[fname](K, K.cell_val(a))))
+    K.ensure(f"irispie.{fname}(x)(t) == {fname}(x(t)) period by period", K.cell_eq(V(K, rs, rd, t, c), want))
+    nxs, nxd = state(K, x)
+    K.ensure("functional form leaves its input untouched", K.cell_eq(V(K, nxs, nxd, t, c), a))
+    K.ensure("functional form does not alias its input", (r is not x) and (not K.same_buffer(rd, nxd)))
+    K.method(x, fname)
+    mxs, mxd = state(K, x)
+    K.ensure("method form changes the receiver in place", K.cell_eq(V(K, mxs, mxd, t, c), want))
+
+
+@contract("C10", targets=["irispie.series._statistics:Inlay.sum", "irispie.series._statistics:Inlay.mean", "irispie.series._statistics:sum",
+                          "irispie.series._statistics:mean"], instances=[(CLS[0], 2, f) for f in ("sum", "mean")], opts={"max_paths": 4000})
+def statistics_across_variants(K, cls, nv, fname):
+    import irispie.series._statistics as ST
+    x, xs, xd = mk_series(K, "x", cls, nv)
+    r = K.call(getattr(ST, fname), x)
+    rs, rd = state(K, r)
+    lo, hi = ser(K, cls)
+    t = K.int("t", lo - 30, hi + 60)
+    K.instantiate(t)
+    a0, a1 = V(K, xs, xd, t, 0), V(K, xs, xd, t, 1)
+    nan = K.Or(K.cell_is_nan(a0), K.cell_is_nan(a1))
+    tot = K.cell_val(a0) + K.cell_val(a1)
+    want = K.cell_ite(nan, lambda: K.nan_cell(), lambda: K.real_cell(tot if fname == "sum" else tot / 2))
+    K.ensure(f"{fname} across variants, period by period", K.cell_eq(V(K, rs, rd, t, 0), want))
+    K.ensure("single variant result", K.shape(rd)[1] == 1)
+    K.ensure("RI", RI(K, r, 1, cls))
+    nxs, nxd = state(K, x)
+    K.ensure("input untouched", K.And(K.cell_eq(V(K, nxs, nxd, t, 0), a0), K.cell_eq(V(K, nxs, nxd, t, 1), a1)))
+
+
+@contract("C10", targets=["irispie.series._indexing:Inlay.__getitem__", "irispie.series._indexing:Inlay.__setitem__", "irispie.series._indexing:Inlay.__call__",
+                          P + "Series._get_data_and_recreate"], instances=[(CLS[0], n) for n in NV], opts={"max_paths": 4000})
+def indexing_dunders(K, cls, nv):
+    x, xs, xd = mk_series(K, "x", cls, nv)
+    old = K.snapshot(xd)
+    lo, hi = ser(K, cls)
+    d = K.int("d", lo - 10, hi + 20)
+    per = K.obj(cls, serial=d)
+    out = K.index(x, per)
+    c = K.int("c", 0, nv - 1)
+    K.ensure("x[p] reads the period", K.cell_eq(K.cell(out, 0, c), V(K, xs, old, d, c)))
+    v = K.real("v")
+    K.setitem(x, per, v)
+    ns, nd = state(K, x)
+    t, c2 = generic_cell(K, cls, nv)
+    K.instantiate(t)
+    K.ensure("x[p] = v writes exactly that period", K.cell_eq(V(K, ns, nd, t, c2), K.cell_ite(t == d, lambda: K.real_cell(v), lambda: V(K, xs, old, t, c2))))
+    K.ensure("RI", RI(K, x, nv, cls))
+
+
+# ------------------------------------------------------------------------------ bounded stand-ins (NOT proofs)
+def _enum_series(B, cls, nv, max_rows, values):
+    import itertools, math
+    start = cls(8000) if cls is not D.DailyPeriod else cls(730000)
+    for rows in range(1, max_rows + 1):
+        cells = rows * nv
+        combos = itertools.product(values, repeat=cells)
+        for combo in combos:
+            arr = np.array(combo, dtype=float).reshape(rows, nv)
+            if np.all(np.isnan(arr[0])) or np.all(np.isnan(arr[-1])):
+                continue
+            yield Series(start=start, values=arr.copy()), arr
+
+
+def _as_map(s):
+    if s.start is None:
+        return {}
+    return {(s.start.serial + i, c): float(s.data[i, c]) for i in range(s.data.shape[0]) for c in range(s.data.shape[1]) if not np.isnan(s.data[i, c])}
+
+
+def _close(a, b):
+    return (a != a and b != b) or (a == a and b == b and abs(a - b) <= 1e-9 * max(1.0, abs(a), abs(b)))
+
+
+@bounded("C10", bound="all series with <= 4 periods x 1 variant (and <= 3 x 2 in thorough) over values {NaN,-1,0.5,2}, quarterly+integer; fill methods previous/next/nearest/linear/constant; windows -1..-3; AR(1), AR(2) extrapolation over 3 periods")
+def fill_moving_extrapolate_native(B):
+    """fill_missing / moving windows / extrapolate act period by period (checked against a dictionary model);
+    functional forms leave their input untouched and do not alias it."""
+    import irispie as ir
+    nan = float("nan")
+    vals = (nan, -1.0, 0.5, 2.0)
+    for cls in (D.QuarterlyPeriod, D.IntegerPeriod):
+        for nv, max_rows in ((1, 4),) + (((2, 3),) if B.thorough else ((2, 2),)):
+            for s, arr in _enum_series(B, cls, nv, max_rows, vals):
+                before = _as_map(s)
+                before_data = s.data.copy()
+                start = s.start.serial
+                rows = arr.shape[0]
+                # ---- fill_missing
+                for method in ("previous", "next", "nearest", "linear", "constant"):
+                    B.case()
+                    r = ir.fill_missing(s, method, 7.0 if method == "constant" else None)
+                    if _as_map(s) != before or np.shares_memory(r.data, s.data) or r is s:
+                        B.fail("functional fill_missing modified or aliased its input", {"method": method, "data": arr.tolist()})
+                        return
+                    got = _as_map(r)
+                    for c in range(nv):
+                        obs = [i for i in range(rows) if not np.isnan(arr[i, c])]
+                        for i in range(rows):
+                            if not np.isnan(arr[i, c]):
+                                want = arr[i, c]
+                            elif not obs:
+                                want = 7.0 if method == "constant" else nan
+                            elif method == "constant":
+                                want = 7.0
+                            else:
+                                prev = max([j for j in obs if j < i], default=None)
+                                nxt = min([j for j in obs if j > i], default=None)
+                                if method == "previous":
+                                    want = arr[prev, c] if prev is not None else nan
+                                elif method == "next":
+                                    want = arr[nxt, c] if nxt is not None else nan
+                                elif method == "nearest":
+                                    cand = [j for j in (prev, nxt) if j is not None]
+                                    j = min(cand, key=lambda j: (abs(j - i), j))
+                                    want = arr[j, c]
+                                else:
+                                    if prev is not None and nxt is not None:
+                                        want = arr[prev, c] + (arr[nxt, c] - arr[prev, c]) * (i - prev) / (nxt - prev)
+                                    else:
+                                        want = arr[prev if prev is not None else nxt, c]
+                            have = got.get((start + i, c), nan)
+                            if not _close(have, want):
+                                B.fail(f"fill_missing({method}) is not period-by-period", {"data": arr.tolist(), "row": i, "variant": c, "got": have, "want": want})
+                                return
+                # ---- moving windows
+                for window in (-1, -2, -3):
+                    for fname, red in (("mov_sum", sum), ("mov_avg", lambda xs: sum(xs) / len(xs))):
+                        B.case()
+                        r = getattr(ir, fname)(s, window)
+                        if _as_map(s) != before or np.shares_memory(r.data, s.data):
+                            B.fail(f"functional {fname} modified or aliased its input", {"data": arr.tolist()})
+                            return
+                        got = _as_map(r)
+                        for c in range(nv):
+                            for i in range(rows):
+                                win = [arr[i - k, c] if i - k >= 0 else nan for k in range(-window)]
+                                want = nan if any(w != w for w in win) else red(win)
+                                have = got.get((start + i, c), nan)
+                                if not _close(have, want):
+                                    B.fail(f"{fname} window {window} is not period-by-period", {"data": arr.tolist(), "row": i, "got": have, "want": want})
+                                    return
+                # ---- extrapolate
+                if nv == 1 and not np.isnan(arr).any() and rows >= 2:
+                    for coeffs in ((0.5,), (0.5, 0.25)):
+                        B.case()
+                        span = cls(start + rows) >> cls(start + rows + 2)
+                        r = ir.extrapolate(s, coeffs, span, intercept=1.0)
+                        if _as_map(s) != before:
+                            B.fail("functional extrapolate modified its input", {"data": arr.tolist()})
+                            return
+                        path = list(arr[:, 0])
+                        for _ in range(3):
+                            path.append(1.0 + sum(cf * path[-1 - j] for j, cf in enumerate(coeffs) if len(path) - 1 - j >= 0))
+                        got = _as_map(r)
+                        for i, want in enumerate(path):
+                            if not _close(got.get((start + i, 0), nan), want):
+                                B.fail("extrapolate does not follow the AR recursion period by period", {"data": arr.tolist(), "coeffs": coeffs, "row": i})
+                                return
+                if not np.array_equal(s.data, before_data, equal_nan=True):
+                    B.fail("input data changed", {"data": arr.tolist()})
+                    return
+
+
+@bounded("C10", bound="random operation histories of length 12 (set/shift/clip/overlay/underlay/hstack/+,*,neg/copy/functional shift) on 2 series, <= 8 periods, values {NaN,-1,0,2}; 150 histories quick / 1500 thorough")
+def operation_histories_native(B):
+    """Sequences of public operations against a dictionary model (stand-in for the induction over histories)."""
+    import irispie as ir
+    nan = float("nan")
+    rng = B.rng
+    cls = D.QuarterlyPeriod
+    for h in range(1500 if B.thorough else 150):
+        ser = [Series(), Series()]
+        model = [dict(), dict()]
+        log = []
+        for step in range(12):
+            B.case()
+            k = rng.randint(0, 1)
+            op = rng.choice(["set", "shift", "clip", "overlay", "underlay", "add", "mul", "neg", "copy", "fshift", "setnan"])
+            try:
+                if op in ("set", "setnan"):
+                    t = 8000 + rng.randint(-3, 4)
+                    v = nan if op == "setnan" else rng.choice([-1.0, 0.0, 2.0])
+                    ser[k].set_data((cls(t),), v)
+                    model[k].pop(t, None)
+                    if v == v:
+                        model[k][t] = v
+                    log.append((op, k, t, v))
+                elif op == "shift":
+                    by = rng.randint(-2, 2)
+                    ser[k].shift(by)
+                    model[k] = {t - by: v for t, v in model[k].items()}
+                    log.append((op, k, by))
+                elif op == "clip":
+                    if not model[k]:
+                        continue
+                    lo_, hi_ = min(model[k]), max(model[k])
+                    a, b = lo_ + rng.randint(-1, 1), hi_ + rng.randint(-1, 1)
+                    if max(a, lo_) > min(b, hi_):
+                        continue
+                    ser[k].clip(cls(a), cls(b))
+                    model[k] = {t: v for t, v in model[k].items() if a <= t <= b}
+                    ser[k].trim()
+                    log.append((op, k, a, b))
+                elif op in ("overlay", "underlay"):
+                    if not model[1 - k] or not model[k]:
+                        continue
+                    span_o = range(min(model[1 - k]), max(model[1 - k]) + 1)
+                    span_s = range(min(model[k]), max(model[k]) + 1)
+                    getattr(ser[k], op)(ser[1 - k])
+                    if op == "overlay":
+                        new = {t: v for t, v in model[k].items() if t not in span_o}
+                        new.update(model[1 - k])
+                    else:
+                        new = {t: v for t, v in model[1 - k].items() if t not in span_s}
+                        new.update(model[k])
+                    model[k] = new
+                    log.append((op, k))
+                elif op in ("add", "mul"):
+                    if not model[0] and not model[1]:
+                        continue
+                    r = ser[0] + ser[1] if op == "add" else ser[0] * ser[1]
+                    f = (lambda a, b: a + b) if op == "add" else (lambda a, b: a * b)
+                    ser[k] = r
+                    model[k] = {t: f(model[0][t], model[1][t]) for t in model[0] if t in model[1]}
+                    log.append((op, k))
+                elif op == "neg":
+                    ser[k] = -ser[k]
+                    model[k] = {t: -v for t, v in model[k].items()}
+                    log.append((op, k))
+                elif op == "copy":
+                    ser[1 - k] = ser[k].copy()
+                    model[1 - k] = dict(model[k])
+                    log.append((op, k))
+                elif op == "fshift":
+                    by = rng.randint(-2, 2)
+                    r = ir.shift(ser[k], by)
+                    ser[1 - k] = r
+                    model[1 - k] = {t - by: v for t, v in model[k].items()}
+                    log.append((op, k, by))
+            except Exception as ex:
+                B.fail(f"exception {type(ex).__name__}: {ex}", {"history": log, "op": op})
+                return
+            for j in (0, 1):
+                got = {t: v for (t, c), v in _as_map(ser[j]).items()}
+                if got != model[j]:
+                    B.fail("series disagrees with the period-indexed map model", {"history": log, "series": j, "got": got, "want": model[j]})
+                    return
+                if ser[j].start is not None and (np.all(np.isnan(ser[j].data[0])) or np.all(np.isnan(ser[j].data[-1]))):
+                    B.fail("leading/trailing all-missing period after an operation", {"history": log, "series": j})
+                    return
+                if (ser[j].start is None) != (ser[j].data.shape[0] == 0):
+                    B.fail("start/rows invariant broken", {"history": log, "series": j})
+                    return
+            if ser[0].data.size and ser[1].data.size and np.shares_memory(ser[0].data, ser[1].data):
+                B.fail("two series share memory", {"history": log})
+                return
+    return {"exhaustive_within_bound": False}
